@@ -37,7 +37,8 @@ class Remote:
         return self
 
 
-# operations: ("reg", ep, d, lt, base, extra) | ("post", target, lt, body) | ("put", target, links) | ("del", target) | ("wait",)
+# operations: ("reg", ep, d, lt, base, extra) | ("post", target, lt, body) | ("postx", target, setting, bad) | ("put", target, links) |
+# ("putx", target, bad query) | ("del", target) | ("wait",)
 def catalogue():
     ops = []
     for ep in ("a", "b"):
@@ -50,7 +51,8 @@ def catalogue():
         ops += [("post", target, None, False), ("post", target, "120", False), ("post", target, "zz", False), ("post", target, "120", True),
                 ("put", target, 1), ("del", target)]
     ops += [("post", 9, None, False), ("wait",), ("wait2",), ("postx", 0, "lt=86400", "rt=oops"), ("postx", 0, "base=coap://changed.example", "count=3"),
-            ("postx", 0, "lt=200", "ep=z"), ("postx", 0, "base=coap://b2.example", None)]
+            ("postx", 0, "lt=200", "ep=z"), ("postx", 0, "base=coap://b2.example", None),
+            ("postx", 0, "note=world", None), ("putx", 0, "lt=soon")]
     return ops
 
 
@@ -186,7 +188,7 @@ def mk_history(first, depth, lo=0, hi=None, prefix=()):
                                 targets.append(key)
                         else:
                             assert resp.code.class_ == 4
-                    elif kind in ("post", "postx", "put", "del"):
+                    elif kind in ("post", "postx", "put", "putx", "del"):
                         ti = op[1]
                         key = targets[ti] if ti < len(targets) else None
                         cur = live().get(key) if key is not None else None
@@ -219,11 +221,20 @@ def mk_history(first, depth, lo=0, hi=None, prefix=()):
                                 k_, v_ = setting.split("=", 1)
                                 if k_ == "lt":
                                     cur["lt"] = int(v_)
-                                else:
+                                elif k_ == "base":
                                     cur["base"] = v_
+                                else:
+                                    cur["extra"] = setting      # an ordinary parameter: the latest write wins
                                 cur["expiry"] = loop.time() + cur["lt"] + GRACE
                             else:
                                 assert resp.code.class_ == 4
+                        elif kind == "putx":
+                            # PUT with a well-formed body and a query that is rejected: nothing of it may be stored
+                            m = Message(code=PUT, uri_path=path, uri_query=[op[2]], payload=LINKSETS[1] if cur is None or cur["links"] != LINKSETS[1] else LINKSETS[0],
+                                        content_format=ContentFormat.LINKFORMAT)
+                            resp = serve(loop, site, m)
+                            valid = False
+                            assert resp.code.class_ == 4
                         elif kind == "put":
                             m = Message(code=PUT, uri_path=path, payload=LINKSETS[1], content_format=ContentFormat.LINKFORMAT)
                             resp = serve(loop, site, m)
